@@ -83,7 +83,10 @@ MANIFEST = dict(
          "sel3_tokenize_sp_* lemmas); C06_list_deep_spelled_example evaluates `[-2]/a/b[*]/f`, `/[last()]/[1][k=2]/f`, "
          "`//[0+1]/c[-1][k!=2]/f`, … run against the implementation; chained selections behind any spelling of P below a list "
          "root: C06_chained_list_deep_spelled (xlds_chained_string), C06_chained_list_deep_spelled_example "
-         "(`/[-1]/[last()][i=1]/t[s=B]/q`, …). Differential only: index spellings with blanks inside "
+         "(`/[-1]/[last()][i=1]/t[s=B]/q`, …). Index tokens with blanks inside the brackets, TOKEN level: C06_idx_blank_tok "
+         "(`[ e ]` / `name[ e ]` are IdxTok / KeyIdxTok for the stripped expression - Proofs/XPathIdxBlank.lean - so the "
+         "Sel3Spells token-level theorems cover them; C06_idx_blank_example: tokenisation and results of `a[ -1 ][k=1]/f`, … as "
+         "the implementation returns them). Differential only: the STRING level for index spellings with blanks inside "
          "the brackets (15 % of "
          "the generated trees keep a list root, all forms and chained selections, evaluator and model stream), a scalar `items` "
          "(fix C06-h: a single value does not satisfy a condition, that parent contributes nothing - before, IndexError left the "
